@@ -247,4 +247,143 @@ theorem find_roots_cover (f : IFun K) (hc : IFunContract f) (init : Interval K) 
   intro y ⟨hy, hy0⟩
   exact push_root sq f hc _ _ _ _ _ _ y hy hy0
 
+/-! ## termination: the recursion counters bound the run -/
+
+/-- number of nodes of the complete 4-ary tree of depth `d`: a candidate with `d` recursions left is popped once and
+pushes at most four candidates with `d - 1` recursions left -/
+def treeSize : Nat → Nat
+  | 0 => 1
+  | d + 1 => 1 + 4 * treeSize d
+
+private theorem treeSize_pos (d : Nat) : 0 < treeSize d := by cases d <;> simp [treeSize]
+private theorem treeSize_mono (d : Nat) : treeSize d ≤ treeSize (d + 1) := by simp [treeSize]; omega
+
+/-- fuel still needed by the candidates on the stack -/
+def candWeight (maxRec : Nat) (cs : List (Interval K × Nat)) : Nat := (cs.map fun c => treeSize (maxRec - c.2)).sum
+def CandsOk (maxRec : Nat) (cs : List (Interval K × Nat)) : Prop := ∀ c ∈ cs, c.2 ≤ maxRec
+/-- weight a `push_candidate(_, r)` may add -/
+def pushBound (maxRec r : Nat) : Nat := if r < maxRec then treeSize (maxRec - (r + 1)) else 0
+
+private theorem push_weight (f : IFun K) (minW minImg : K) (maxRec : Nat) (cand : Interval K) (r : Nat) (hr : r ≤ maxRec)
+    (st : RootState K) (hok : CandsOk maxRec st.2) :
+    letI := fieldNum K sq
+    CandsOk maxRec (pushCandidate f minW minImg maxRec cand r st).2 ∧
+      candWeight maxRec (pushCandidate f minW minImg maxRec cand r st).2 ≤ candWeight maxRec st.2 + pushBound maxRec r := by
+  unfold pushCandidate
+  simp only
+  split_ifs with h1 h2 h3
+  · exact ⟨hok, Nat.le_add_right _ _⟩
+  · have hne : r ≠ maxRec := by
+      intro e; apply h2; simp [e]
+    have hlt : r < maxRec := lt_of_le_of_ne hr hne
+    refine ⟨?_, ?_⟩
+    · intro c hc
+      rcases List.mem_cons.1 hc with rfl | hc
+      · exact hlt
+      · exact hok c hc
+    · simp only [candWeight, List.map_cons, List.sum_cons, pushBound, if_pos hlt]
+      omega
+  · exact ⟨hok, Nat.le_add_right _ _⟩
+  · exact ⟨hok, Nat.le_add_right _ _⟩
+
+private theorem pushNew_weight (f : IFun K) (minW minImg : K) (maxRec : Nat) (pw : K) (r : Nat) (hr : r ≤ maxRec)
+    (nc : Option (Interval K)) (st : RootState K) (hok : CandsOk maxRec st.2) :
+    letI := fieldNum K sq
+    CandsOk maxRec (pushNew f minW minImg maxRec pw r nc st).2 ∧
+      candWeight maxRec (pushNew f minW minImg maxRec pw r nc st).2 ≤ candWeight maxRec st.2 + 2 * pushBound maxRec r := by
+  unfold pushNew
+  cases nc with
+  | none => exact ⟨hok, Nat.le_add_right _ _⟩
+  | some c =>
+    simp only
+    split_ifs
+    · obtain ⟨o1, w1⟩ := push_weight sq f minW minImg maxRec (@Interval.split K (fieldNum K sq) c).1 r hr st hok
+      obtain ⟨o2, w2⟩ := push_weight sq f minW minImg maxRec (@Interval.split K (fieldNum K sq) c).2 r hr _ o1
+      exact ⟨o2, by omega⟩
+    · obtain ⟨o1, w1⟩ := push_weight sq f minW minImg maxRec c r hr st hok
+      exact ⟨o1, by omega⟩
+
+private theorem step_weight (f : IFun K) (minW minImg : K) (maxRec : Nat) (cand : Interval K) (r : Nat) (hr : r ≤ maxRec)
+    (st : RootState K) (hok : CandsOk maxRec st.2) :
+    letI := fieldNum K sq
+    CandsOk maxRec (rootStep f minW minImg maxRec cand r st).2 ∧
+      candWeight maxRec (rootStep f minW minImg maxRec cand r st).2 ≤ candWeight maxRec st.2 + 4 * pushBound maxRec r := by
+  unfold rootStep
+  simp only
+  obtain ⟨o1, w1⟩ := pushNew_weight sq f minW minImg maxRec (@Interval.width K (fieldNum K sq) cand) r hr
+    (@newtonPiece K (fieldNum K sq) (@Interval.midpoint K (fieldNum K sq) cand)
+      (@Interval.div K (fieldNum K sq) ⟨f.eval (@Interval.midpoint K (fieldNum K sq) cand), f.eval (@Interval.midpoint K (fieldNum K sq) cand)⟩ (f.gradI cand)).1 cand) st hok
+  obtain ⟨o2, w2⟩ := pushNew_weight sq f minW minImg maxRec (@Interval.width K (fieldNum K sq) cand) r hr
+    (match (@Interval.div K (fieldNum K sq) ⟨f.eval (@Interval.midpoint K (fieldNum K sq) cand), f.eval (@Interval.midpoint K (fieldNum K sq) cand)⟩ (f.gradI cand)).2 with
+      | none => none
+      | some s => @newtonPiece K (fieldNum K sq) (@Interval.midpoint K (fieldNum K sq) cand) s cand) _ o1
+  refine ⟨o2, le_trans w2 ?_⟩
+  omega
+
+private theorem loop_terminates (f : IFun K) (minW minImg : K) (maxRec : Nat) :
+    letI := fieldNum K sq
+    ∀ (fuel : Nat) (st : RootState K), CandsOk maxRec st.2 → candWeight maxRec st.2 ≤ fuel →
+      ∃ res, rootsLoop f minW minImg maxRec fuel st = some res := by
+  intro fuel
+  induction fuel with
+  | zero =>
+    intro st hok hw
+    obtain ⟨r0, cs⟩ := st
+    cases cs with
+    | nil => exact ⟨r0, by simp [rootsLoop]⟩
+    | cons c cs =>
+      simp only [candWeight, List.map_cons, List.sum_cons] at hw
+      have := treeSize_pos (maxRec - c.2)
+      omega
+  | succ n ih =>
+    intro st hok hw
+    obtain ⟨r0, cs⟩ := st
+    cases cs with
+    | nil => exact ⟨r0, by simp [rootsLoop]⟩
+    | cons c cs =>
+      obtain ⟨ci, cr⟩ := c
+      have hcr : cr ≤ maxRec := hok (ci, cr) (List.mem_cons_self ..)
+      have hok' : CandsOk maxRec cs := fun c hc => hok c (List.mem_cons_of_mem _ hc)
+      obtain ⟨o, w⟩ := step_weight sq f minW minImg maxRec ci cr hcr (r0, cs) hok'
+      simp only [rootsLoop]
+      refine ih _ o ?_
+      simp only [candWeight, List.map_cons, List.sum_cons] at hw w ⊢
+      have hb : 4 * pushBound maxRec cr + 1 ≤ treeSize (maxRec - cr) := by
+        unfold pushBound
+        split_ifs with hlt
+        · have e : maxRec - cr = (maxRec - (cr + 1)) + 1 := by omega
+          rw [e]; simp [treeSize]; omega
+        · have := treeSize_pos (maxRec - cr); omega
+      omega
+
+/-- **termination**: with `fuel ≥ treeSize max_recursions = (4^(max_recursions+1) - 1)/3` the run always returns — for
+every function (no contract needed), start interval and thresholds. -/
+theorem find_roots_terminates (f : IFun K) (init : Interval K) (minW minImg : K) (maxRec fuel : Nat)
+    (hfuel : treeSize maxRec ≤ fuel) :
+    letI := fieldNum K sq
+    ∃ res, findRootIntervals f init minW minImg maxRec fuel = some res := by
+  unfold findRootIntervals
+  obtain ⟨o, w⟩ := push_weight sq f minW minImg maxRec init 0 (Nat.zero_le _) ([], []) (fun c hc => by cases hc)
+  refine loop_terminates sq f minW minImg maxRec fuel _ o ?_
+  have hb : pushBound maxRec 0 ≤ treeSize maxRec := by
+    unfold pushBound
+    split_ifs with h
+    · have e : maxRec = (maxRec - (0 + 1)) + 1 := by omega
+      conv_rhs => rw [e]
+      exact treeSize_mono _
+    · exact Nat.zero_le _
+  simp only [candWeight, List.map_nil, List.sum_nil] at w
+  simp only [candWeight] at *
+  omega
+
+/-- **total correctness of `find_root_intervals`**: under the trait's contract and with enough fuel the run returns and
+its result covers every root of `f` in `init`. -/
+theorem find_roots_total (f : IFun K) (hc : IFunContract f) (init : Interval K) (minW minImg : K) (maxRec fuel : Nat)
+    (hfuel : treeSize maxRec ≤ fuel) :
+    letI := fieldNum K sq
+    ∃ res, findRootIntervals f init minW minImg maxRec fuel = some res ∧
+      ∀ x, IMem init x → f.eval x = 0 → ∃ i ∈ res, IMem i x := by
+  obtain ⟨res, h⟩ := find_roots_terminates sq f init minW minImg maxRec fuel hfuel
+  exact ⟨res, h, find_roots_cover sq f hc init minW minImg maxRec fuel res h⟩
+
 end C09
